@@ -51,17 +51,25 @@ Tag(a) == ((a % 256) * 167 + ((a \div 256) % 256) * 13 + (a \div 65536) * 7 + 90
 BgVal(bg, a) == IF bg = "tag" /\ ~InIo(a) THEN Tag(a) ELSE 0
 
 (***************************************************************************)
-(* Memory = [bg, ov]: ov is a function from a finite set of addresses to   *)
-(* bytes (explicit pokes and writes), laid over the background.            *)
+(* Memory = [bg, runs, ov] laid over the background:                       *)
+(*   runs : sequence of <<start, <<b0, b1, ...>>>> - the explicit pokes of *)
+(*          the harness as disjoint contiguous runs (static)               *)
+(*   ov   : function from a finite set of addresses to bytes - the writes  *)
+(*          performed so far (threaded executions); ov wins over runs      *)
 (***************************************************************************)
-Rd(mem, a) == IF a \in DOMAIN mem.ov THEN mem.ov[a] ELSE BgVal(mem.bg, a)
-(* overlay from a sequence of <<addr, byte>> pairs; later pairs win *)
+RunVal(runs, a) ==
+  LET S == {i \in 1..Len(runs) : a >= runs[i][1] /\ a < runs[i][1] + Len(runs[i][2])}
+  IN IF S = {} THEN -1 ELSE LET i == CHOOSE j \in S : TRUE IN runs[i][2][a - runs[i][1] + 1]
+Rd(mem, a) ==
+  IF a \in DOMAIN mem.ov THEN mem.ov[a]
+  ELSE LET v == RunVal(mem.runs, a) IN IF v >= 0 THEN v ELSE BgVal(mem.bg, a)
+MemOf(bg, runs) == [bg |-> bg, runs |-> runs, ov |-> <<>>]
+(* function from a sequence of <<addr, byte>> pairs; later pairs win *)
 OvOf(pairs) ==
   LET n == Len(pairs)
       D == {pairs[i][1] : i \in 1..n}
       last(a) == CHOOSE i \in 1..n : pairs[i][1] = a /\ \A j \in (i + 1)..n : pairs[j][1] # a
   IN [a \in D |-> pairs[last(a)][2]]
-MemOf(bg, pairs) == [bg |-> bg, ov |-> OvOf(pairs)]
 (* apply a sequence of writes *)
 WrAll(mem, pairs) ==
   LET o == OvOf(pairs)
